@@ -4,6 +4,7 @@ import (
 	"bytes"
 	"fmt"
 	"math"
+	"sort"
 	"strings"
 	"sync"
 	"sync/atomic"
@@ -19,32 +20,81 @@ import (
 // ---------------------------------------------------------------------------
 // reporting with cheap de-duplication (some defects are hit millions of times)
 
+type keyRec struct {
+	n      atomic.Int64
+	best   atomic.Uint64 // enumeration index of the recorded case
+	mu     sync.Mutex
+	what   string
+	replay any
+}
+
+type store struct {
+	run  *ev.Run
+	keys sync.Map // key -> *keyRec
+}
+
+// reporter is a view on the shared store positioned at one enumeration index:
+// of all failing cases of a key the one with the smallest index is reported,
+// so the replay file does not depend on goroutine scheduling.
 type reporter struct {
-	run    *ev.Run
-	counts sync.Map // key -> *atomic.Int64
+	*store
+	ord uint64
 }
 
 func newReporter(run *ev.Run) *reporter {
-	return &reporter{run: run}
+	return &reporter{store: &store{run: run}}
 }
 
-// hit records one failing case; what/replay are only built for the first case of a key.
+func (r *reporter) at(ord uint64) *reporter { return &reporter{r.store, ord} }
+
+// hit records one failing case; what/replay are only built when the case is
+// earlier in the enumeration than the one recorded so far.
 func (r *reporter) hit(key string, mkWhat func() (string, any)) {
-	v, ok := r.counts.Load(key)
+	v, ok := r.keys.Load(key)
 	if !ok {
-		v, _ = r.counts.LoadOrStore(key, new(atomic.Int64))
+		nr := &keyRec{}
+		nr.best.Store(math.MaxUint64)
+		v, _ = r.keys.LoadOrStore(key, nr)
 	}
-	if v.(*atomic.Int64).Add(1) > 1 {
+	rec := v.(*keyRec)
+	rec.n.Add(1)
+	if rec.best.Load() <= r.ord {
 		return
 	}
-	what, replay := mkWhat()
-	r.run.Report(key, what, replay)
+	rec.mu.Lock()
+	if r.ord < rec.best.Load() {
+		rec.what, rec.replay = mkWhat()
+		rec.best.Store(r.ord)
+	}
+	rec.mu.Unlock()
+}
+
+// flush hands the recorded cases to ev in enumeration order.
+func (r *reporter) flush() {
+	type kr struct {
+		key string
+		rec *keyRec
+	}
+	var all []kr
+	r.keys.Range(func(k, v any) bool {
+		all = append(all, kr{k.(string), v.(*keyRec)})
+		return true
+	})
+	sort.Slice(all, func(i, j int) bool {
+		if a, b := all[i].rec.best.Load(), all[j].rec.best.Load(); a != b {
+			return a < b
+		}
+		return all[i].key < all[j].key
+	})
+	for _, x := range all {
+		r.run.Report(x.key, x.rec.what, x.rec.replay)
+	}
 }
 
 func (r *reporter) byKey() map[string]int64 {
 	m := map[string]int64{}
-	r.counts.Range(func(k, c any) bool {
-		m[k.(string)] = c.(*atomic.Int64).Load()
+	r.keys.Range(func(k, c any) bool {
+		m[k.(string)] = c.(*keyRec).n.Load()
 		return true
 	})
 	return m
@@ -406,21 +456,12 @@ func (t *rt) run(rp *reporter, ci *callInfo, l int8, f func()) {
 	}
 }
 
-// pathClass keeps keys short: the distinct wrapper kinds on the path, in order.
+// pathClass keeps keys few: only the kind of the leaf's parent.
 func pathClass(p string) string {
 	if p == "" {
 		return "-root"
 	}
-	seen := map[string]bool{}
-	out := ""
-	for _, s := range strings.Split(p, "/") {
-		if s == "" || seen[s] {
-			continue
-		}
-		seen[s] = true
-		out += "-" + s
-	}
-	return out
+	return "-" + p[strings.LastIndexByte(p, '/')+1:]
 }
 
 func protect(f func()) (p any) {
